@@ -132,7 +132,7 @@ class FactClient(ir.Client):
     def init(self, func):
         return (frozenset(), (), frozenset())
 
-    hist_kinds = ("T", "F", "ok", "bad", "field", "oncurve", "lt", "nz", "cmp")
+    hist_kinds = ("T", "F", "ok", "bad", "field", "oncurve", "lt", "ltc", "nz", "cmp")
 
     # ---- helpers
     def callstr(self, c):
@@ -144,7 +144,7 @@ class FactClient(ir.Client):
         out = set()
         for f in facts:
             k = f[0]
-            if k in ("lt", "ge", "nz", "field", "oncurve", "ext", "priv") and f[1] == name:
+            if k in ("lt", "ltc", "ge", "nz", "field", "oncurve", "ext", "priv") and f[1] == name:
                 continue
             if k in ("T", "F") and re.match(r"[\w>*().-]*?\(%s[,)]" % re.escape(name), f[1]) and \
                     f[1].split("(", 1)[1].startswith(name):
@@ -221,6 +221,11 @@ class FactClient(ir.Client):
                 base = self.canon(fn["b"])
                 facts = self._drop_subject(facts, names[0])
                 facts.add(("lt", names[0], base + "->mod"))
+        # stores to plain members / variables invalidate flag facts about them
+        for n in walk(e):
+            if (n.get("k") == "Bin" and n["op"] in ir.ASSIGN_OPS) or (n.get("k") == "Un" and n["op"] in ("pre++", "pre--", "post++", "post--")):
+                tgt = self.canon(n["x"] if n.get("k") == "Bin" else n["e"])
+                facts = {x for x in facts if not (x[0] == "cmp" and x[2] == tgt)}
         # assignments of err_t call results
         for l, rhs, op in ir.assigned_vars(e):
             if l["id"] in pend:
@@ -267,6 +272,8 @@ class FactClient(ir.Client):
                 rel = truth[0] if pol else truth[1]
                 if rel in ("lt", "ge"):
                     facts.add((rel, names[0], names[1]))
+                    if rel == "lt":
+                        facts.add(("ltc", names[0], names[1]))    # established by an explicit comparison
                 elif rel == "gt":
                     facts.add(("ge", names[0], names[1]))
                 elif rel == "le":
@@ -281,7 +288,10 @@ class FactClient(ir.Client):
             elif self.track_generic:
                 facts.add(("cmp", pol, self.canon(c)))
         elif self.track_generic and k in ("Ref", "Member"):
-            facts.add(("cmp", pol, self.canon(c)))
+            cs = self.canon(c)
+            if ("cmp", not pol, cs) in facts:
+                return None      # the same flag was assumed the other way earlier on this path (nothing wrote it since)
+            facts.add(("cmp", pol, cs))
         # provenance of err_t / bool variables
         env2 = ir.refine(c, pol, env)
         for vid, (cs, t) in pend:
